@@ -37,7 +37,11 @@ type c20Case struct {
 	Stdin     bool      `json:"stdin"`               // stdin/stdout operation (first file only)
 	StdinFile bool      `json:"stdinfile,omitempty"` // stdin is a regular file (shell redirection) instead of a pipe
 	Rerun     bool      `json:"rerun"`               // compress a longer version of the file first, then the real one (output file exists already)
+	Umask     int       `json:"umask,omitempty"`     // the umask the command runs under (the harness itself creates its files with exact modes)
 }
+
+// c20Umask is the umask of the commands of the case being run (cases run one at a time per process).
+var c20Umask int
 
 var sizeCodes = map[string]int{"": 7, "64K": 4, "256K": 5, "1M": 6, "4M": 7}
 
@@ -81,7 +85,7 @@ func (c c20Case) flagsFor(size string) []string {
 
 func shQuote(s string) string { return "'" + strings.ReplaceAll(s, "'", `'\''`) + "'" }
 
-// lz4c runs the binary with umask 0 (so that mode equality is meaningful) in dir.
+// lz4c runs the binary in dir under the umask of the current case (0 unless the case says otherwise).
 func lz4c(dir string, stdin []byte, args ...string) (stdout, stderr []byte, code int, err error) {
 	return lz4cIn(dir, stdin, false, args...)
 }
@@ -96,7 +100,7 @@ func lz4cIn(dir string, stdin []byte, asFile bool, args ...string) (stdout, stde
 	for _, a := range args {
 		q = append(q, shQuote(a))
 	}
-	cmd := exec.Command("/bin/sh", "-c", "umask 0; exec "+strings.Join(q, " "))
+	cmd := exec.Command("/bin/sh", "-c", fmt.Sprintf("umask %03o; exec ", c20Umask)+strings.Join(q, " "))
 	cmd.Dir = dir
 	cmd.Stdin = bytes.NewReader(stdin)
 	if asFile {
@@ -140,6 +144,11 @@ func runC20(c c20Case, rec *stat.Rec) *stat.Failure {
 		return stat.Failf("harness-problem", "%v", err)
 	}
 	defer os.RemoveAll(dir)
+	c20Umask = c.Umask
+	defer func() { c20Umask = 0 }()
+	if c.Umask != 0 {
+		rec.Class(fmt.Sprintf("umask/%03o", c.Umask))
+	}
 	rec.Eval()
 	bsCode := sizeCodes[c.Size]
 	level := c.Level
@@ -205,6 +214,21 @@ func runC20(c c20Case, rec *stat.Rec) *stat.Failure {
 		rec.Class("mode/stdin-stdout")
 		if c.StdinFile {
 			rec.Class("mode/stdin-is-a-regular-file")
+		}
+		// what `lz4c compress < f > saved.z` leaves behind, handed to the file mode of uncompress: the name has no .lz4 to strip,
+		// so there is no output name to derive; whatever the command does about that, the compressed file must survive it
+		// (or the content must have been restored somewhere)
+		if len(so) > 0 {
+			saved := filepath.Join(dir, "saved.z")
+			if err := os.WriteFile(saved, so, 0o644); err != nil {
+				return stat.Failf("harness-problem", "%v", err)
+			}
+			_, _, _, _ = lz4c(dir, nil, "uncompress", "saved.z")
+			after, _ := os.ReadFile(saved)
+			if !bytes.Equal(after, so) && !bytes.Equal(after, data) {
+				return stat.Failf("C20/uncompress-destroys-an-input-without-the-extension", "flags [%s]: `lz4c uncompress saved.z` (the %d bytes that `lz4c compress` wrote to its standard output) left saved.z with %d bytes, neither the compressed file nor the restored content", flagDesc, len(so), len(after))
+			}
+			rec.Class("mode/uncompress-a-file-without-the-extension")
 		}
 	} else {
 		var names []string
@@ -372,6 +396,7 @@ func drawC20(t *rapid.T) c20Case {
 		}
 		c.Files = append(c.Files, f)
 	}
+	c.Umask = rapid.SampledFrom([]int{0, 0, 0o022, 0o027, 0o077}).Draw(t, "umask")
 	if nf > 1 && !c.Rerun && rapid.IntRange(0, 2).Draw(t, "mixedsizes") == 0 {
 		for i := range c.Files {
 			sz := rapid.SampledFrom([]string{"64K", "256K", "1M", "4M"}).Draw(t, "filesize")
@@ -383,7 +408,7 @@ func drawC20(t *rapid.T) c20Case {
 
 func init() { register("C20", "C20/cli", runC20) }
 
-const c20Rule = "the lz4c binary built from the working tree (alternate go.mod with replace => /repo), run with umask 0 in a scratch directory: 1..3 files per invocation or stdin/stdout; file sizes from " +
+const c20Rule = "the lz4c binary built from the working tree (alternate go.mod with replace => /repo), run under umask 0, 022, 027 or 077 in a scratch directory: 1..3 files per invocation or stdin/stdout; file sizes from " +
 	"{0,1,bs-1,bs,bs+1,2bs,2bs+1,3bs-1,random} for the chosen -size, random / zero / text / grammar contents, permission bits 0600 | drawn; flag sets over -size {default,64K,256K,1M,4M} x -bc x -sc " +
 	"x -l {absent,0,1,2,5,9} x -c {absent,1,2}; optionally the output file already exists from an earlier, longer version of the input. Oracle: exit status 0 and every expected output present; " +
 	"x.lz4 is exactly one strictly valid frame (independent parser) whose content is the file; the header shows what the usage text says (-bc => block checksums, -sc => no content checksum, default " +
@@ -394,6 +419,6 @@ const c20Rule = "the lz4c binary built from the working tree (alternate go.mod w
 func TestC20(t *testing.T) {
 	rec := stat.For("C20")
 	rec.SetRule(c20Rule)
-	rec.Require("nontrivial", "name/contains-.lz4", "mode/stdin-is-a-regular-file", "mode/files-with-different-block-sizes", "mode/stdin-stdout", "mode/several-files", "mode/output-file-existed", "flag/bc", "flag/sc", "flag/l>0", "level/differs-from-fast", "level/8-differs-from-7", "level/6-differs-from-5", "level/3-differs-from-2", "input/empty", "input/bs", "input/k*bs")
+	rec.Require("nontrivial", "umask/022", "umask/077", "name/contains-.lz4", "mode/stdin-is-a-regular-file", "mode/files-with-different-block-sizes", "mode/stdin-stdout", "mode/several-files", "mode/output-file-existed", "flag/bc", "flag/sc", "flag/l>0", "level/differs-from-fast", "level/8-differs-from-7", "level/6-differs-from-5", "level/3-differs-from-2", "input/empty", "input/bs", "input/k*bs")
 	checkProp(t, "C20", "C20/cli", pick(4000, 60000), drawC20, runC20)
 }
